@@ -196,9 +196,17 @@ func implRoundtrip(pc int, js []byte) (res string, out []pdfcpu.Bookmark, pdf []
 
 // ---------------------------------------------------------------- forest generation
 
-var titlePool = []string{"A", "A", "B", "0", "C", "Ä", "日本語", "😀 x", "(par\\en)", "A b", "Kapitel 1", "é", "Z", "a", "~", "A!", " "}
+var titlePool = []string{"A", "A", "B", "0", "C", "Ä", "日本語", "😀 x", "(paren)", "A b", "Kapitel 1", "é", "Z", "a", "~", "A!", " "}
+
+// titles with a backslash: the text decoding applied to /Dest names (types.HexLiteralToString ->
+// Unescape) is not the identity on them; the model treats that decoding as the identity, so these
+// go to the oracle only (mode 3), not to the correspondence stream.
+var bsPool = []string{"(par\\en)", "a\\b", "C:\\dir\\file", "x\\", "\\101"}
 
 func genTitle(r *vh.Run, mode int) string {
+	if mode == 3 && r.Rand.Intn(3) == 0 {
+		return bsPool[r.Rand.Intn(len(bsPool))]
+	}
 	switch x := r.Rand.Intn(20); {
 	case x < 12:
 		return titlePool[r.Rand.Intn(len(titlePool))]
@@ -212,6 +220,9 @@ func genTitle(r *vh.Run, mode int) string {
 			switch r.Rand.Intn(4) {
 			case 0:
 				rs[i] = rune(0x20 + r.Rand.Intn(0x5f))
+				if rs[i] == '\\' {
+					rs[i] = '/'
+				}
 			case 1:
 				rs[i] = rune(0xa0 + r.Rand.Intn(0x200))
 			case 2:
@@ -221,11 +232,11 @@ func genTitle(r *vh.Run, mode int) string {
 			}
 		}
 		return string(rs)
-	case x < 19 || mode == 0:
+	case x < 19 || mode == 0 || mode == 3:
 		return titlePool[r.Rand.Intn(len(titlePool))] + fmt.Sprint(r.Rand.Intn(30))
 	default:
 		// not in export-normal form: control bytes
-		return []string{"a\x01b", "\x02", "\tT\n", "A\x01", "x\x1f"}[r.Rand.Intn(5)]
+		return []string{"a\x01b", "\x02", "\tT\n", "A\x01", "x\x10"}[r.Rand.Intn(5)]
 	}
 }
 
@@ -338,51 +349,93 @@ func mismatchClass(in, out []pdfcpu.Bookmark) string {
 	return "roundtrip-mismatch"
 }
 
-func oneRoundtrip(r *vh.Run, pc int, bms []pdfcpu.Bookmark, tag string) {
+// norm is what the first export makes of a forest (bookmark.go outlineItemTitle / the `continue`
+// on an empty title): bytes below 32 dropped, bookmarks whose title becomes empty dropped with
+// their subtree.
+func norm(bms []pdfcpu.Bookmark) []pdfcpu.Bookmark {
+	var out []pdfcpu.Bookmark
+	for _, b := range bms {
+		var sb strings.Builder
+		for i := 0; i < len(b.Title); i++ {
+			if b.Title[i] >= 32 {
+				sb.WriteByte(b.Title[i])
+			}
+		}
+		if sb.Len() == 0 {
+			continue
+		}
+		c := b
+		c.Title = sb.String()
+		c.Kids = norm(b.Kids)
+		out = append(out, c)
+	}
+	return out
+}
+
+func nameRefDecodeError(res string) bool {
+	if !strings.HasPrefix(res, "imperr:other:") {
+		return false
+	}
+	return strings.Contains(res, vh.Hex([]byte("name reference entry")))
+}
+
+// oneRoundtrip: valid = the forest satisfies import's documented conditions by construction
+// (pages in range, non-decreasing among siblings, kids not before their parent), k = also a
+// correspondence case.  Returns whether export(import(f)) == norm(f).
+func oneRoundtrip(r *vh.Run, pc int, bms []pdfcpu.Bookmark, tag string, valid, k bool) bool {
 	js, err := json.Marshal(pdfcpu.BookmarkTree{Bookmarks: bms})
 	if err != nil {
 		panic(err)
 	}
 	in := forestStr(bms)
 	var out []pdfcpu.Bookmark
-	var pdf []byte
 	res := guard(func() string {
 		var s string
-		s, out, pdf = implRoundtrip(pc, js)
+		s, out, _ = implRoundtrip(pc, js)
 		return s
 	})
-	r.Case("roundtrip", []string{vh.Int(int64(pc)), in}, res)
+	if k {
+		r.Case("roundtrip", []string{vh.Int(int64(pc)), in}, res)
+	}
 	r.Count("roundtrip:" + tag)
-	r.Count(fmt.Sprintf("roundtrip-nodes:%d", (countNodes(bms)+4)/5*5))
+	r.Count(fmt.Sprintf("roundtrip-nodes<=%d", (countNodes(bms)+4)/5*5))
+	input := map[string]any{"pages": pc, "json": string(js)}
 	if strings.HasPrefix(res, "PANIC") {
-		r.OracleFail("panic-import-export", map[string]any{"pages": pc, "json": string(js)}, res)
-		return
+		r.OracleFail("panic-import-export", input, res)
+		return false
 	}
 	if !strings.HasPrefix(res, "ok ") {
-		r.Count("roundtrip-result:" + strings.SplitN(res, ":", 3)[0] + ":" + strings.SplitN(res+"::", ":", 3)[1])
-		if clean(bms) && strings.HasPrefix(res, "rerr") {
+		parts := strings.SplitN(res, ":", 3)
+		r.Count("roundtrip-result:" + parts[0] + ":" + parts[1])
+		switch {
+		case strings.HasPrefix(res, "rerr"):
 			// import accepted the forest but the result cannot be exported
-			r.OracleFail("imported-not-exportable", map[string]any{"pages": pc, "json": string(js)}, res)
+			r.OracleFail("imported-not-exportable", input, res)
+		case nameRefDecodeError(res):
+			// a duplicate title whose /Dest name does not survive HexLiteralToString (backslash,
+			// bytes 0x18-0x1f): updateNameRef refuses the rename and the whole import fails
+			r.OracleFail("dup-title-name-ref-decode", input, res)
+		case valid:
+			r.OracleFail("valid-forest-rejected", input, res)
 		}
-		return
+		return false
 	}
 	r.Count("roundtrip-result:ok")
-	if !clean(bms) {
-		return // first export normalises; covered by the second-round check below
-	}
-	// O1: export(import(f)) == f
-	if res == "ok "+in {
+	want := forestStr(norm(bms))
+	if res == "ok "+want {
 		r.OracleOK()
-	} else {
-		r.OracleFail(mismatchClass(bms, out), map[string]any{"pages": pc, "json": string(js)}, "in="+in+" out="+res[3:])
+		return true
 	}
-	_ = pdf
+	r.OracleFail(mismatchClass(norm(bms), out), input, "want="+want+" got="+res[3:])
+	return false
 }
 
-// literal property: export E1 of a document, import E1 into a document with the same pages, export
-// again: E2 == E1.  The document is produced by a first import of arbitrary (also non-normal) titles.
+// literal property: export E1 of a document, import E1 into a document with the same pages
+// (replacing the existing bookmarks), export again: E2 == E1.  Only called when the document's
+// first export is what it should be (otherwise the defect is already reported).
 func exportImportExport(r *vh.Run, pc int, bms []pdfcpu.Bookmark) {
 	js, _ := json.Marshal(pdfcpu.BookmarkTree{Bookmarks: bms})
+	input := map[string]any{"pages": pc, "json": string(js), "stage": "export-import-export"}
 	var w bytes.Buffer
 	if err := api.ImportBookmarks(bytes.NewReader(makePDF(pc, "", nil)), bytes.NewReader(js), &w, true, nil); err != nil {
 		r.Count("eie:first-import-rejected")
@@ -393,22 +446,26 @@ func exportImportExport(r *vh.Run, pc int, bms []pdfcpu.Bookmark) {
 		r.Count("eie:first-export-empty-or-error")
 		return
 	}
-	// import the exported JSON as is (header included) into the document that already has bookmarks (replace)
+	// import the exported JSON as is (header included) into the document that already has bookmarks
 	var w2 bytes.Buffer
 	if err := api.ImportBookmarks(bytes.NewReader(w.Bytes()), bytes.NewReader(j1), &w2, true, nil); err != nil {
-		r.OracleFail("export-not-reimportable", map[string]any{"pages": pc, "json": string(js)}, vh.Hex([]byte(err.Error())))
+		cl := "export-not-reimportable"
+		if nameRefDecodeError(importErrClass(err)) {
+			cl = "dup-title-name-ref-decode"
+		}
+		r.OracleFail(cl, input, vh.Hex([]byte(err.Error())))
 		return
 	}
 	e2, _, err := exportJSON(w2.Bytes())
 	if err != nil {
-		r.OracleFail("imported-not-exportable", map[string]any{"pages": pc, "json": string(js)}, vh.Hex([]byte(err.Error())))
+		r.OracleFail("imported-not-exportable", input, vh.Hex([]byte(err.Error())))
 		return
 	}
 	r.Count("eie:checked")
 	if forestStr(e1) == forestStr(e2) {
 		r.OracleOK()
 	} else {
-		r.OracleFail(mismatchClass(e1, e2), map[string]any{"pages": pc, "json": string(js), "stage": "export-import-export"}, "e1="+forestStr(e1)+" e2="+forestStr(e2))
+		r.OracleFail(mismatchClass(e1, e2), input, "e1="+forestStr(e1)+" e2="+forestStr(e2))
 	}
 }
 
@@ -850,7 +907,7 @@ func fixedForests() [][]pdfcpu.Bookmark {
 		{bk("A", 1), bk("A", 2), bk("B", 3), bk("0", 4), bk("A", 5)}, // the refuted witness of Property.v
 		{bk("A", 1), bk("A", 2), bk("A", 3), bk("A", 4), bk("A", 5), bk("A", 6)},
 		{bk("A", 1, bk("A", 1), bk("A", 2)), bk("A", 3)},
-		{{Title: "Ünï ♥ 😀 (x) \\ y", PageFrom: 1, Bold: true, Color: &c, Kids: []pdfcpu.Bookmark{{Title: "k", PageFrom: 1, Italic: true}, {Title: "k", PageFrom: 3}}}, bk("z", 2)},
+		{{Title: "Ünï ♥ 😀 (x) / y", PageFrom: 1, Bold: true, Color: &c, Kids: []pdfcpu.Bookmark{{Title: "k", PageFrom: 1, Italic: true}, {Title: "k", PageFrom: 3}}}, bk("z", 2)},
 		{deep},
 		{bk("a", 1), bk("b", 2), bk("c", 3), bk("d", 4), bk("e", 5), bk("f", 6)},
 		{bk("f", 1), bk("e", 2), bk("d", 3), bk("c", 4), bk("b", 5), bk("a", 6)},
@@ -859,6 +916,18 @@ func fixedForests() [][]pdfcpu.Bookmark {
 		{bk("q", 0)},
 		{bk("q", 7)},
 		{bk("q", 6, bk("k", 6, bk("j", 6)))},
+	}
+}
+
+func backslashForests() [][]pdfcpu.Bookmark {
+	bk := func(t string, p int, kids ...pdfcpu.Bookmark) pdfcpu.Bookmark {
+		return pdfcpu.Bookmark{Title: t, PageFrom: p, Kids: kids}
+	}
+	return [][]pdfcpu.Bookmark{
+		{bk("a\\b", 1), bk("c", 2)},
+		{bk("(par\\en)", 1), bk("(par\\en)", 2)},
+		{bk("(par\\en)", 1), bk("(paren)", 2)},
+		{bk("C:\\dir", 1, bk("C:\\dir", 2)), bk("x\\", 3)},
 	}
 }
 
@@ -876,28 +945,35 @@ func main() {
 	defer r.Finish()
 
 	for _, f := range fixedForests() {
-		oneRoundtrip(r, 6, f, "fixed")
+		if oneRoundtrip(r, 6, f, "fixed", false, true) {
+			exportImportExport(r, 6, f)
+		}
 		r.Case("build", []string{vh.Int(6), forestStr(f)}, guard(func() string { return buildDump(6, f) }))
-		exportImportExport(r, 6, f)
 	}
 	// recursion limit of import (default 100): nesting 100 is accepted, 101 is not
 	for _, n := range []int{99, 100, 101} {
 		f := deepChain(n)
 		r.Case("build", []string{vh.Int(3), forestStr(f)}, guard(func() string { return buildDump(3, f) }))
-		oneRoundtrip(r, 3, f, "deep")
+		oneRoundtrip(r, 3, f, "deep", n <= 100, true)
+	}
+	// titles with backslashes: oracle only
+	for _, f := range backslashForests() {
+		if oneRoundtrip(r, 6, f, "backslash-fixed", true, false) {
+			exportImportExport(r, 6, f)
+		}
 	}
 
 	n := r.Pick(260, 6000)
 	for i := 0; i < n; i++ {
 		pc := 1 + r.Rand.Intn(8)
-		mode := []int{0, 0, 0, 1, 2}[r.Rand.Intn(5)]
+		mode := []int{0, 0, 0, 1, 2, 3}[r.Rand.Intn(6)]
 		maxDepth := 1 + r.Rand.Intn(5)
 		f := genForest(r, pc, 0, maxDepth, mode, 1)
-		oneRoundtrip(r, pc, f, fmt.Sprintf("mode%d", mode))
-		if i%2 == 0 {
+		ok := oneRoundtrip(r, pc, f, fmt.Sprintf("mode%d", mode), mode == 0 || mode == 3, mode != 3)
+		if i%2 == 0 && mode != 3 {
 			r.Case("build", []string{vh.Int(int64(pc)), forestStr(f)}, guard(func() string { return buildDump(pc, f) }))
 		}
-		if i%3 == 0 {
+		if ok && i%2 == 1 {
 			exportImportExport(r, pc, f)
 		}
 	}
